@@ -67,6 +67,7 @@ ASSUMPTIONS = [
     "treesim guards are all on (checks/treesim.py GUARDS): histories never enter states with recorded working-tree defects; smart_add file ids are made from hex-escaped paths (ids must not contain whitespace)",
     "history generation additionally stays out of two working-tree corners that this namespace would reach and that are not export's business (both raise inside the tree operation on the current tree): an ignore file (.bzrignore/.gitignore) that is a directory or dangling symlink (is_ignored raises IsADirectoryError/NoSuchFile), and remove without --keep/--force of a non-ASCII path (backup name lookup passes the unescaped path to transport.has: InvalidURL)",
     "no guards of its own: a plan['unguarded'] key in older replay files is accepted and ignored",
+    "histories contain no commit that selects more than one path (treesim.MTree1): the bytes of the pack such a commit writes - hence the pack's md5 name and the order of every later index lookup - depend on the iteration order of a Rust HashSet in the dirstate iter_changes code, whose hash keys are drawn from the getrandom stream after process-history-dependent lazy initialisations, so one (seed, plan) gave different event logs in different worker processes; pack/index names are additionally masked in the event log (treesim.mask_content_names)",
     "runs execute in-process (ISOLATION=thread): each run builds tree, model and Sim from scratch",
 ]
 STEP_CAP = 200000
@@ -91,7 +92,7 @@ COMPONENT_NAMES = ["a", "a b", "dé", "dé.x", "ü ö"]
 ROOTS = [None, None, "", "r", "deep/root", "wü rzel"]
 
 
-class XTree(T.MTree):
+class XTree(T.MTree1):
     """treesim model with file ids for smart_add that are legal for every name of this
     check's namespace (treesim builds them from the raw path; a file id must not contain
     whitespace)."""
@@ -118,7 +119,7 @@ class XTree(T.MTree):
         if o == "remove" and not op["keep"] and not op["force"]:
             if any(not q.isascii() for q in [op["p"]] + self.disk_below(op["p"])):
                 raise T.Unmodelled()
-        return T.MTree._do(self, op)
+        return T.MTree1._do(self, op)
 
 
 # --------------------------------------------------------------------------------------
@@ -600,6 +601,7 @@ def execute(sim, plan):
     fl = plan["flavour"]
     # plan["unguarded"] (replay files written while this check still had guards) is ignored
     T.relativise_log(sim, os.path.join(os.environ["VERIF_SCRATCH"], "t"))
+    T.mask_content_names(sim)
     tree = T.make_tree(sim, fl, "t")
     model = XTree(fl)
     revids, times = {}, {}
